@@ -8,7 +8,7 @@ OUT = os.path.join(os.path.dirname(os.path.abspath(__file__)), "..", "lean", "Em
 def die(m):
     print("gen_grammar: " + m, file=sys.stderr); sys.exit(2)
 
-TOK = re.compile(r"""\s*(?:(//[^\n]*)|(\^?"(?:[^"\\]|\\.)*")|('(?:[^'\\]|\\.)')|(\.\.)|([A-Za-z_][A-Za-z_0-9]*)|(\{\s*\d+\s*,\s*\d+\s*\})|([=~|*+?!(){}$_@]))""")
+TOK = re.compile(r"""\s*(?:(//[^\n]*)|(\^?"(?:[^"\\]|\\.)*")|('(?:[^'\\]|\\.)')|(\.\.)|([A-Za-z_][A-Za-z_0-9]*)|(\{\s*(?:\d+\s*(?:,\s*\d*\s*)?|,\s*\d+\s*)\})|([=~|*+?!(){}$_@]))""")
 
 def tokenize(src):
     pos = 0; out = []
@@ -75,7 +75,17 @@ class P:
             elif x == "+": self.next(); e = ("plus", e)
             elif x == "?": self.next(); e = ("opt", e)
             elif k == "rep":
-                self.next(); m = re.match(r"\{\s*(\d+)\s*,\s*(\d+)\s*\}", x); e = ("rep", e, int(m.group(1)), int(m.group(2)))
+                self.next()
+                m = re.match(r"\{\s*(\d*)\s*(,?)\s*(\d*)\s*\}", x)
+                lo, comma, hi = m.group(1), m.group(2), m.group(3)
+                if not comma:                       # e{n}
+                    e = ("rep", e, int(lo), int(lo))
+                elif lo and hi:                     # e{n,m}
+                    e = ("rep", e, int(lo), int(hi))
+                elif hi:                            # e{,m}
+                    e = ("rep", e, 0, int(hi))
+                else:                               # e{n,}: n repetitions, then any number
+                    e = ("seq", ("rep", e, int(lo), int(lo)), ("star", e)) if int(lo) > 0 else ("star", e)
             else: return e
     def atom(self):
         k, x = self.next()
@@ -92,6 +102,11 @@ class P:
                 return ("range", lo, unesc(y[1:-1]))
             return ("str", lo)
         if k == "id":
+            # built-in character classes that are plain ranges (no extra construct needed in the model)
+            ranges = {"ASCII_DIGIT": ("0", "9"), "ASCII_NONZERO_DIGIT": ("1", "9"), "ASCII_OCT_DIGIT": ("0", "7"),
+                      "ASCII_ALPHA_LOWER": ("a", "z"), "ASCII_ALPHA_UPPER": ("A", "Z")}
+            if x in ranges:
+                return ("range",) + ranges[x]
             return ("rule", x)
         die("unexpected token %r" % x)
 
